@@ -326,6 +326,53 @@ func c20OutFunc(c *Ctx, sb *strings.Builder, file, goName, leanName, sig, doc st
 	fmt.Fprintf(sb, "/-- %s -/\ndef %s %s :=\n  %s\n\n", doc, leanName, sig, body)
 }
 
+// c20Small: the methods that are one-liners or empty – NullTerm (three empty bodies: nothing is ever written) and the
+// two WriteForLinef (delegate to WriteForLine(line, fmt.Sprintf(format, args...)) of the same receiver)
+func c20Small(c *Ctx, sb *strings.Builder) {
+	const nt = "pkg/multiterm/nullterm.go"
+	counts := []string{}
+	ok := true
+	for _, fn := range []string{"NullTerm.WriteForLine", "NullTerm.WriteForLinef", "NullTerm.Close"} {
+		c.Fingerprint(nt, fn)
+		fd := c.Func(nt, fn)
+		if fd == nil || fd.Body == nil {
+			ok = false
+			break
+		}
+		counts = append(counts, fmt.Sprintf("%d", len(fd.Body.List)))
+	}
+	if ok {
+		fmt.Fprintf(sb, "/-- nullterm.go: number of statements in the bodies of NullTerm.WriteForLine / WriteForLinef / Close -/\ndef nullTermStatements : List Nat := [%s]\n\n", strings.Join(counts, ", "))
+	} else {
+		sb.WriteString(untranslatable("nullTermStatements"))
+	}
+	deleg := func(file, fn string) bool {
+		fd := c.Func(file, fn)
+		if fd == nil || fd.Body == nil || len(fd.Body.List) != 1 || fd.Recv == nil || len(fd.Recv.List[0].Names) != 1 {
+			return false
+		}
+		es, ok := fd.Body.List[0].(*ast.ExprStmt)
+		if !ok {
+			return false
+		}
+		recv := fd.Recv.List[0].Names[0].Name
+		var ps []string
+		for _, f := range fd.Type.Params.List {
+			for _, n := range f.Names {
+				ps = append(ps, n.Name)
+			}
+		}
+		if len(ps) != 3 {
+			return false
+		}
+		return c.Print(es.X) == fmt.Sprintf("%s.WriteForLine(%s, fmt.Sprintf(%s, %s...))", recv, ps[0], ps[1], ps[2])
+	}
+	c.Fingerprint("pkg/multiterm/multiterm.go", "TermWriter.WriteForLinef")
+	c.Fingerprint("pkg/multiterm/virtualterm.go", "VirtualTerm.WriteForLinef")
+	fmt.Fprintf(sb, "/-- multiterm.go / virtualterm.go: WriteForLinef(line, format, args...) is exactly WriteForLine(line, fmt.Sprintf(format, args...)) -/\ndef writeForLinefDelegates : Bool × Bool := (%v, %v)\n\n",
+		deleg("pkg/multiterm/multiterm.go", "TermWriter.WriteForLinef"), deleg("pkg/multiterm/virtualterm.go", "VirtualTerm.WriteForLinef"))
+}
+
 func c20Out(c *Ctx, sb *strings.Builder) {
 	const ts = "pkg/multiterm/termstate/term.go"
 	const out = "cmd/helpers/output.go"
@@ -339,4 +386,5 @@ func c20Out(c *Ctx, sb *strings.Builder) {
 	c20OutFunc(c, sb, out, "BuildVTermFromArguments", "buildVTermFromArguments",
 		"(flagBool : String → Bool) (flagString : String → List UInt8) (piped : Bool) : Kind",
 		"cmd/helpers/output.go BuildVTermFromArguments(c): `flagBool n` = c.Bool(n), `flagString n` = c.String(n)", 1, false)
+	c20Small(c, sb)
 }
